@@ -97,7 +97,9 @@ def _choice(key, a, shape=(), replace=True, p=None, axis=0, **kw):
         if forced is None and S.rng is not None:
             pv = ev["p"]
             if pv is not None and len(pv) == n and np.all(np.isfinite(pv)) and pv.sum() > 0 and np.all(pv >= -1e-12):
-                supp = [i for i in range(n) if pv[i] / pv.sum() > 1e-9]
+                supp = [i for i in range(n) if pv[i] / pv.sum() > 1e-6]
+                if not supp:
+                    supp = [int(np.argmax(pv))]
             else:
                 supp = list(range(n))
             forced = int(supp[int(S.rng.integers(0, len(supp)))])
